@@ -208,7 +208,10 @@ Inductive fault :=
 | F_omit_fib_deletes         (* FIB_PROGRAMMED is never sent for DELETE operations *)
 | F_stale_get_ipv4           (* Get omits one entry of the IPv4 table *)
 | F_ignore_flush_named       (* Flush of a named instance answers OK and removes nothing *)
-| F_tie_keeps_old_primary.   (* a session whose announced id equals the current id is served as primary again *)
+| F_tie_keeps_old_primary    (* a session whose announced id equals the current id is served as primary again *)
+(* Get loses exactly one table; every other table is complete *)
+| F_stale_get_nh             (* Get never returns next-hop entries *)
+| F_stale_get_nhg.           (* Get never returns next-hop-group entries *)
 
 Definition map_out (f : out -> out) (o : sout) : sout := match o with OMod x => OMod (f x) | o' => o' end.
 Definition map_resps (f : resp -> resp) (o : out) : out := {| o_resps := map f (o_resps o); o_end := o_end o |}.
@@ -256,6 +259,9 @@ Fixpoint drop_first_ipv4 (l : list gentry) : list gentry :=
   | GTop _ T4 _ _ :: tl => tl
   | e :: tl => e :: drop_first_ipv4 tl
   end.
+
+Definition is_gnh (e : gentry) : bool := match e with GNh _ _ _ => true | _ => false end.
+Definition is_ggrp (e : gentry) : bool := match e with GGrp _ _ _ => true | _ => false end.
 
 Definition fstep (f : fault) : stepfn := fun s i =>
   match f with
@@ -319,6 +325,16 @@ Definition fstep (f : fault) : stepfn := fun s i =>
   | F_stale_get_ipv4 =>
     match i with
     | SGet q => (s, OGet (option_map drop_first_ipv4 (do_get s q)))
+    | _ => ref_step s i
+    end
+  | F_stale_get_nh =>
+    match i with
+    | SGet q => (s, OGet (option_map (filter (fun e => negb (is_gnh e))) (do_get s q)))
+    | _ => ref_step s i
+    end
+  | F_stale_get_nhg =>
+    match i with
+    | SGet q => (s, OGet (option_map (filter (fun e => negb (is_ggrp e))) (do_get s q)))
     | _ => ref_step s i
     end
   | F_ignore_flush_named =>
@@ -466,6 +482,29 @@ Definition T_get_ipv4 : test :=
                      CExpect (has_res 1 1 RIB_PROGRAMMED); CExpect (has_res 1 2 RIB_PROGRAMMED); CExpect (has_res 1 3 RIB_PROGRAMMED);
                      doget (NName 1) A_IPV4; CExpect (last_get_has (1, 1, 1042))]
                  ++ cleanup |}.
+(* GetNHG - RIB ACK *)
+Definition T_get_nhg : test :=
+  {| t_span := 1;
+     t_script := session 1 0 id1
+                 ++ [CExpect (no_errors 1);
+                     sendops 1 [hop1 1 ADD id1 (e_nh 1)]; sendops 1 [hop1 2 ADD id1 (e_grp 1 [1])];
+                     CExpect (no_errors 1); close 1;
+                     CExpect (has_res 1 1 RIB_PROGRAMMED); CExpect (has_res 1 2 RIB_PROGRAMMED);
+                     doget (NName 1) A_NHG; CExpect (last_get_has (1, 4, 1))]
+                 ++ cleanup |}.
+(* GetIPv4Chain - RIB ACK: one Get of every table; the prefix, the group 1 and the next-hop 1 must each be there
+   (group and next-hop carry the same number: the keys are compared per table) *)
+Definition T_get_chain : test :=
+  {| t_span := 1;
+     t_script := session 1 0 id1
+                 ++ [CExpect (no_errors 1);
+                     sendops 1 [hop1 1 ADD id1 (e_nh 1)]; sendops 1 [hop1 2 ADD id1 (e_grp 1 [1])];
+                     sendops 1 [hop1 3 ADD id1 (e_v4 1042 1)];
+                     CExpect (no_errors 1); close 1;
+                     CExpect (has_res 1 1 RIB_PROGRAMMED); CExpect (has_res 1 2 RIB_PROGRAMMED); CExpect (has_res 1 3 RIB_PROGRAMMED);
+                     doget (NName 1) A_ALL;
+                     CExpect (last_get_has (1, 1, 1042)); CExpect (last_get_has (1, 4, 1)); CExpect (last_get_has (1, 5, 1))]
+                 ++ cleanup |}.
 (* FlushOfSpecificNI - RIB ACK: a chain in the default instance (first stream, first id) and one in the VRF
    (second stream, second id); Flush of the default instance by name under the current id *)
 Definition hopn (n id : N) (k : okind) (el : u128) (e : entry) : hop := mk_hop id n k (Some el) e [] [].
@@ -515,7 +554,7 @@ Definition test_of (n : N) : option test :=
   | 5 => Some T_idempotent_delete | 6 => Some T_same_id_two_clients | 7 => Some T_unannounced_id
   | 8 => Some T_get_nh | 9 => Some T_flush_master
   | 10 => Some T_idempotent_delete_fib | 11 => Some T_get_ipv4 | 12 => Some T_flush_specific
-  | 13 => Some T_lower_id | 14 => Some T_dec_id
+  | 13 => Some T_lower_id | 14 => Some T_dec_id | 15 => Some T_get_nhg | 16 => Some T_get_chain
   | _ => None
   end.
 Definition fault_of (n : N) : option fault :=
@@ -524,20 +563,22 @@ Definition fault_of (n : N) : option fault :=
   | 4 => Some F_stale_get | 5 => Some F_ignore_flush | 6 => Some F_misreport_elect | 7 => Some F_accept_repeated_params
   | 8 => Some F_echo_own_elect | 9 => Some F_misreport_nonprimary | 10 => Some F_omit_fib_deletes
   | 11 => Some F_stale_get_ipv4 | 12 => Some F_ignore_flush_named | 13 => Some F_tie_keeps_old_primary
+  | 14 => Some F_stale_get_nh | 15 => Some F_stale_get_nhg
   | _ => None
   end.
-Definition all_tests : list N := [1; 2; 3; 4; 5; 6; 7; 8; 9; 10; 11; 12; 13; 14].
-Definition faulty : list N := [1; 2; 3; 4; 5; 6; 7; 8; 9; 10; 11; 12; 13].
+Definition all_tests : list N := [1; 2; 3; 4; 5; 6; 7; 8; 9; 10; 11; 12; 13; 14; 15; 16].
+Definition faulty : list N := [1; 2; 3; 4; 5; 6; 7; 8; 9; 10; 11; 12; 13; 14; 15].
 Definition all_faults : list N := 0 :: faulty.
 
 Definition all_test_records : list test :=
   [T_connect_elect; T_repeated_params; T_add_ipv4_rib; T_add_ipv4_fib; T_idempotent_delete; T_same_id_two_clients;
-   T_unannounced_id; T_get_nh; T_flush_master; T_idempotent_delete_fib; T_get_ipv4; T_flush_specific; T_lower_id; T_dec_id].
+   T_unannounced_id; T_get_nh; T_flush_master; T_idempotent_delete_fib; T_get_ipv4; T_flush_specific; T_lower_id; T_dec_id; T_get_nhg; T_get_chain].
 (* the transcribed tests written for the requirement that each fault breaks *)
 Definition designated_of (f : N) : list N :=
   match f with
-  | 1 => [4; 10] | 2 => [6; 7] | 3 => [5; 10] | 4 => [8; 11; 12] | 5 => [9; 12] | 6 => [1; 6; 13; 14] | 7 => [2]
-  | 8 => [13] | 9 => [13] | 10 => [10] | 11 => [11; 12] | 12 => [12] | 13 => [6]
+  | 1 => [4; 10] | 2 => [6; 7] | 3 => [5; 10] | 4 => [8; 11; 12; 15; 16] | 5 => [9; 12] | 6 => [1; 6; 13; 14] | 7 => [2]
+  | 8 => [13] | 9 => [13] | 10 => [10] | 11 => [11; 12; 16] | 12 => [12] | 13 => [6]
+  | 14 => [8; 12; 16] | 15 => [12; 15; 16]
   | _ => []
   end.
 
